@@ -67,7 +67,9 @@ def cases(draw):
         regular = {"k": draw(st.integers(3, 10)), "first_frac": draw(st.sampled_from([0.05, 0.1, 0.25, 0.5, 0.8]))}
     return {"regular": regular, "shape": [rows, cols], "start": start, "duration": duration, "cuts": cuts, "models": models,
             "qe": draw(st.sampled_from([None, 1.0, 0.5, 0.123])), "lam": draw(st.sampled_from([2.0, 0.5, 3.7, 10.0])),
-            "det_type": draw(st.sampled_from(["CCD", "CMOS", "MKID", "APD"]))}
+            "det_type": draw(st.sampled_from(["CCD", "CMOS", "MKID", "APD"])),
+            # every exposure of the case runs on objects that have already been through the same exposure once
+            "used_detector": draw(st.sampled_from([False, False, True]))}
 
 
 def _times(start, duration, cuts):
@@ -139,7 +141,10 @@ def _run(case, tmp, times, nd, rec, tag):
             "readout": {"times": times, "start_time": case["start"]}, "non_destructive": nd}
     res = None
     with rec.must_not_raise(f"run_failed[{tag}]"):
-        res = pyx.run(pyx.build(spec), with_inherited_coords=True)
+        cfg = pyx.build(spec)
+        if case.get("used_detector"):  # the detector (and pipeline, mode) objects have already been through this exposure once
+            pyx.run(cfg, with_inherited_coords=True)
+        res = pyx.run(cfg, with_inherited_coords=True)
     if res is None:
         return None
     return np.asarray(res["/bucket/pixel"].values, dtype=float)
@@ -169,6 +174,7 @@ def body(case, rec):
     kinds = [m["kind"] for m in case["models"]]
     rec.cls(*[f"model:{k}" for k in kinds], f"n:{min(n, 6)}{'+' if n > 6 else ''}", "partition:regular" if reg else "partition:random")
     rec.nt(unequal and len(kinds) >= 2)
+    rec.cls("detector_used_before" if case.get("used_detector") else "fresh_detector")
     single = [times[-1]]
     # ---- non-destructive: the final accumulated charge depends only on S and E
     px_p = _run(case, rec.tmp, times, True, rec, "nd-partition")
